@@ -750,7 +750,7 @@ Section Sim2.
     destruct (run_script_sim _ _ _ _ _ _ _ R1 Hexn Es) as (m2 & A2 & R2 & K12).
     destruct (s_handling s2) eqn:Eh2.
     - intro E; inversion E; subst; clear E.
-      destruct ((s_cons s' <? s_recv s')%N && negb (s_closing s')).
+      destruct ((s_cons s' <? s_recv s')%N && negb (s_closing s') && negb (q_body q)).
       + destruct (eager_check_sim ex s' m2 R2 Eh2) as (m3 & A3 & R3).
         exists m3. split; [|split; [exact R3|eapply keeps_trans; eauto]].
         cbn [mon_run]. rewrite Hstep, mon_run_app, A2. exact A3.
@@ -772,14 +772,14 @@ Section Sim2.
   Proof.
     intros HR. destruct o as [n| | | |i a]; cbn [step].
     - (* Data *)
-      destruct (s_lost s) eqn:El; [intro E; inversion E; subst; exists m; split; [reflexivity|exact HR]|].
+      destruct (s_lost s || s_closing s) eqn:Elc; [intro E; inversion E; subst; exists m; split; [reflexivity|exact HR]|].
       destruct (s_handling s) eqn:Eh.
-      + assert (R1 : R [] (mkSt (s_rq s) true (s_inchan s) (s_recv s + n) (s_cons s) (s_waiting s) (s_cprod s) (s_closing s) false) m).
+      + assert (R1 : R [] (mkSt (s_rq s) true (s_inchan s) (s_recv s + n) (s_cons s) (s_waiting s) (s_cprod s) (s_closing s) (s_lost s)) m).
         { eapply R_ctl; [exact HR|reflexivity|]. repeat split; cbn; congruence. }
         intro E; inversion E; subst. destruct (0 <? n)%N.
         * apply eager_check_sim; [exact R1|reflexivity].
         * exists m. split; [reflexivity|exact R1].
-      + assert (R1 : R [] (mkSt (s_rq s) false (s_inchan s) (s_recv s + n) (s_cons s) (s_waiting s) (s_cprod s) (s_closing s) false) m).
+      + assert (R1 : R [] (mkSt (s_rq s) false (s_inchan s) (s_recv s + n) (s_cons s) (s_waiting s) (s_cprod s) (s_closing s) (s_lost s)) m).
         { eapply R_ctl; [exact HR|reflexivity|]. repeat split; cbn; congruence. }
         intro E. destruct (drain_sim [] _ _ _ _ _ R1 (fun j (H : In j []) => match H with end) E) as (m' & A & B & _).
         exists m'. auto.
@@ -816,6 +816,50 @@ Section Sim2.
         destruct (fire sync i true s2) as [s3 e3]. cbn [fst snd] in *.
         intro E; inversion E; subst. exists m3. split; [|exact R3].
         rewrite mon_run_app, A1, mon_run_app, A2. exact A3.
+  Qed.
+
+  (** ---------- the idle timeout layer ---------- *)
+  Variable tmo : option N.
+  Variable abt : option N.
+
+  Lemma close_sim s m s1 e1 : R [] s m ->
+    (if sync then lose0 sync (mark_closing s) else (mark_closing s, [])) = (s1, e1) ->
+    exists m', mon_run m e1 = Some m' /\ R [] s1 m'.
+  Proof.
+    intros HR. assert (R0' : R [] (mark_closing s) m) by (eapply R_ctl; [exact HR|reflexivity|repeat split]).
+    destruct sync eqn:Es.
+    - intro E. rewrite <- Es in E. destruct (lose0_sim sync [] _ _ _ _ R0' E) as (m' & A & B & _). exists m'. auto.
+    - intro E; inversion E; subst. exists m. split; [reflexivity|exact R0'].
+  Qed.
+
+  Lemma tstep_sim t m o t' evs :
+    R [] (t_st t) m -> tstep eager sync reqs tmo abt t o = (t', evs) ->
+    exists m', mon_run m evs = Some m' /\ R [] (t_st t') m'.
+  Proof.
+    intros HR. destruct o as [o|dt]; cbn [tstep].
+    - destruct (step eager sync reqs (t_st t) o) as [s1 e1] eqn:Es. intro E; inversion E; subst; clear E. cbn [t_st].
+      eapply step_sim; eauto.
+    - destruct (s_lost (t_st t)); [intro E; inversion E; subst; exists m; split; [reflexivity|exact HR]|].
+      destruct (due (t_dl t) (t_now t + dt)).
+      + destruct (if sync then lose0 sync (mark_closing (t_st t)) else (mark_closing (t_st t), [])) as [s1 e1] eqn:Ec.
+        intro E; inversion E; subst; clear E. destruct (close_sim _ _ _ _ HR Ec) as (m' & A & B).
+        exists m'. split; [cbn [mon_run mon_step]; exact A|exact B].
+      + destruct (due (t_ab t) (t_now t + dt)).
+        * destruct (if sync then lose0 sync (mark_closing (t_st t)) else (mark_closing (t_st t), [])) as [s1 e1] eqn:Ec.
+          intro E; inversion E; subst; clear E. destruct (close_sim _ _ _ _ HR Ec) as (m' & A & B).
+          exists m'. split; [cbn [mon_run mon_step]; exact A|exact B].
+        * intro E; inversion E; subst. exists m. split; [reflexivity|exact HR].
+  Qed.
+
+  Theorem trun_sim ops : forall t m, R [] (t_st t) m ->
+    exists m', mon_ops m (snd (trun eager sync reqs tmo abt t ops)) = Some m' /\
+               R [] (t_st (fst (trun eager sync reqs tmo abt t ops))) m'.
+  Proof.
+    induction ops as [|o ops IH]; intros t m HR; cbn [trun].
+    - exists m. split; [reflexivity|exact HR].
+    - destruct (tstep eager sync reqs tmo abt t o) as [t1 e] eqn:Es. destruct (trun eager sync reqs tmo abt t1 ops) as [t2 es] eqn:Er.
+      destruct (tstep_sim _ _ _ _ _ HR Es) as (m1 & A & R1). destruct (IH t1 m1 R1) as (m2 & B & R2). rewrite Er in B, R2.
+      cbn [fst snd mon_ops] in *. rewrite A, (R_quiescent _ _ R1). exists m2. auto.
   Qed.
 
   Theorem run_sim ops : forall s m, R [] s m ->
